@@ -28,7 +28,8 @@ ColPy(k) ==
     [] k = "b" -> "bool" [] k = "dt" -> "date" [] k = "tm" -> "time" [] k \in {"ts", "tz"} -> "datetime" [] k = "bin" -> "bytes"
 Status == << <<"status", 2, -1, -1>> >>
 \* "dup": two result columns of the same name and different types (SELECT i, s AS i): one entry per result COLUMN, in order
-QueryKinds == ColKinds \cup {"two", "dup", "count", "litstr", "param", "random", "sample", "starzz"}
+\* "litsemi": a text literal holding "; " (statement separators inside literals are data)
+QueryKinds == ColKinds \cup {"two", "dup", "count", "litstr", "litsemi", "param", "random", "sample", "starzz"}
 DmlKinds == {"ins", "upd", "del", "merge"}
 StatusKinds == {"createt", "alter", "dropt", "createv", "createsc", "usesc", "usedb", "begin", "commit", "rollback", "setv", "unsetv",
                 "call", "truncate"}
@@ -40,7 +41,7 @@ Desc(k) ==
   ELSE CASE k = "two"    -> <<ColDesc("n102"), ColDesc("s")>>
          [] k = "dup"    -> <<ColDesc("i"), <<"I", 2, -1, -1>> >>
          [] k = "count"  -> << <<"C", 0, -2, 0>> >>
-         [] k = "litstr" -> << <<"A", 2, -1, -1>> >>
+         [] k \in {"litstr", "litsemi"} -> << <<"A", 2, -1, -1>> >>
          [] k = "param"  -> <<ColDesc("s")>>
          [] k = "random" -> << <<"R", 0, -2, 0>> >>
          [] k = "sample" -> <<ColDesc("i")>>
@@ -55,7 +56,7 @@ Py(k) ==
   IF k \in ColKinds THEN <<ColPy(k)>>
   ELSE CASE k = "two" -> <<"Decimal", "str">> [] k = "dup" -> <<>> [] k = "upd" -> <<"int", "int">> [] k = "starzz" -> <<>>
          [] k \in {"count", "random", "sample", "ins", "del", "merge"} -> <<"int">>
-         [] k \in {"litstr", "param"} \cup StatusKinds -> <<"str">> [] k \in MetaKinds -> <<>>
+         [] k \in {"litstr", "litsemi", "param"} \cup StatusKinds -> <<"str">> [] k \in MetaKinds -> <<>>
 \* rows the statement's result set holds (ty has one row; the status / count results have one row)
 NRows(k) == IF k \in {"show_schemas", "show_tables"} THEN -1 ELSE IF k = "describe_table" THEN -1 ELSE 1
 
